@@ -179,6 +179,39 @@ def addr2line(code, offset):
     return r
 
 
+def line_lookup(code):
+    """offset -> line CPython assigns (None = no line) as a callable.
+
+    Small tables: PyCode_Addr2Line per query (the C reader).  Large tables (where the C reader's linear walk per
+    query would make a scan quadratic): one pass of the interpreter's own Python-level reader (co_lines on 3.10,
+    dis.findlinestarts before), spot-checked against PyCode_Addr2Line."""
+    table = getattr(code, LINE_ATTR)
+    if len(table) < 1200:
+        return lambda off: addr2line(code, off)
+    n = len(code.co_code)
+    m = [None] * (n // 2 + 1)
+    if IS310:
+        for s_, e_, l_ in code.co_lines():
+            for o in range(s_, min(e_, n), 2):
+                m[o // 2] = l_
+    else:
+        starts = sorted(dis.findlinestarts(code))
+        for i, (a, l) in enumerate(starts):
+            end = starts[i + 1][0] if i + 1 < len(starts) else n
+            for o in range(a, min(end, n), 2):
+                m[o // 2] = l
+        if starts and starts[0][0] > 0:
+            for o in range(0, starts[0][0], 2):
+                m[o // 2] = code.co_firstlineno
+    # tie the fast path to the C reader
+    step = max(2, (n // 97) & ~1)
+    for o in list(range(0, n, step)) + [max(0, n - 2)]:
+        if n and m[o // 2] != addr2line(code, o):
+            count("reference_disagreement:fast_line_reader_vs_addr2line")
+            return lambda off: addr2line(code, off)
+    return lambda off: m[off // 2]
+
+
 _constkey = ctypes.pythonapi._PyCode_ConstantKey
 _constkey.argtypes = [ctypes.py_object]
 _constkey.restype = ctypes.py_object
@@ -350,3 +383,18 @@ def import_repo():
     if here != want:
         raise RuntimeError("code_data imported from %s, expected %s" % (here, want))
     return code_data
+
+
+def canon_json(doc):
+    """Canonical text of a JSON document: sort_keys, and frozenset element lists sorted by their own dump
+    (the listing order of frozenset elements is unordered by nature)."""
+    def norm(x):
+        if isinstance(x, dict):
+            d = dict((k, norm(v)) for k, v in x.items())
+            if set(d) == {"frozenset"} and isinstance(d["frozenset"], list):
+                d["frozenset"] = sorted(d["frozenset"], key=lambda e: json.dumps(e, sort_keys=True))
+            return d
+        if isinstance(x, list):
+            return [norm(v) for v in x]
+        return x
+    return json.dumps(norm(doc), sort_keys=True)
